@@ -5,6 +5,8 @@ import (
 	"sort"
 	"time"
 
+	sdk "github.com/cosmos/cosmos-sdk/types"
+
 	"github.com/irismod/service/types"
 )
 
@@ -75,6 +77,7 @@ type Gen struct {
 	inCtr  int64
 	defCtr int64
 	counts map[string]map[string]int // kind -> result -> n
+	k3     float64                   // probability that a call targets the module-registered service (known finding K3)
 }
 
 func pick(rng *rand.Rand, l []int64) int64 { return l[rng.Intn(len(l))] }
@@ -100,6 +103,10 @@ func (g *Gen) pricing() PricingArg {
 	now := g.r.now.Unix()
 	nT := rng.Intn(4)
 	t := now - 10 + int64(rng.Intn(15))
+	if g.chance(0.6) {
+		// on the grid of the likely coming block times, so that starts and ends of windows are hit exactly
+		t = now - 10 + 5*int64(rng.Intn(5))
+	}
 	for i := 0; i < nT; i++ {
 		l := int64(5 * (1 + rng.Intn(3)))
 		p.T = append(p.T, PT{Start: t, End: t + l, Disc: discounts[rng.Intn(len(discounts))]})
@@ -198,10 +205,35 @@ func (g *Gen) snapCtxs() []string {
 	return ks
 }
 
-func (g *Gen) bindingTarget() (svc, prov, owner int64, ok bool) {
+// bindingTarget picks an existing binding (want: 0 any, 1 prefer available, 2 prefer unavailable,
+// 3 prefer unavailable with a deposit whose refund period has passed).
+func (g *Gen) bindingTarget(want int) (svc, prov, owner int64, ok bool) {
 	ks := g.snapBindings()
 	if len(ks) == 0 || g.chance(0.05) {
 		return pick(g.rng, svcAtoms), pick(g.rng, providerAtoms), pick(g.rng, ownerAtoms), false
+	}
+	if want != 0 && g.chance(0.8) {
+		var sel []bindKey
+		for _, k := range ks {
+			b := g.r.snap.Binds[k]
+			switch want {
+			case 1:
+				if b.Available {
+					sel = append(sel, k)
+				}
+			case 2:
+				if !b.Available {
+					sel = append(sel, k)
+				}
+			case 3:
+				if !b.Available && !b.Deposit.IsZero() && (g.chance(0.3) || !g.r.now.Before(b.DisabledTime.Add(g.r.cfg.Arb+g.r.cfg.Compl))) {
+					sel = append(sel, k)
+				}
+			}
+		}
+		if len(sel) > 0 {
+			ks = sel
+		}
 	}
 	k := ks[g.rng.Intn(len(ks))]
 	b := g.r.snap.Binds[k]
@@ -234,7 +266,23 @@ func (g *Gen) next() *Op {
 	if g.chance(pq) {
 		return &Op{Kind: "query"}
 	}
+	if len(s.ActID) > 0 && g.chance(0.3) {
+		return g.respond()
+	}
 	x := rng.Intn(100)
+	if x >= 64 && x < 82 && len(s.ActID) == 0 && g.chance(0.8) {
+		// nothing is pending: make progress towards a batch instead of a hopeless response
+		if len(s.Ctxs) > 0 && g.chance(0.5) {
+			return &Op{Kind: "endblock", Dt: int64(5 * time.Second)}
+		}
+		x = 45
+	}
+	// ops that need an object that does not exist yet: mostly create one instead
+	if len(s.Binds) == 0 && x >= 20 && x < 97 && g.chance(0.85) {
+		x = 6 // bind
+	} else if len(s.Ctxs) == 0 && x >= 82 && x < 92 && g.chance(0.8) {
+		x = 45 // call
+	}
 	switch {
 	case x < 6 || len(s.Defs) == 0:
 		g.defCtr++
@@ -266,7 +314,7 @@ func (g *Gen) next() *Op {
 		o.Dep = g.depositAround(g.minDepositFor(o.Pr))
 		return o
 	case x < 28:
-		svc, prov, owner, _ := g.bindingTarget()
+		svc, prov, owner, _ := g.bindingTarget(0)
 		o := &Op{Kind: "update", Svc: svc, Prov: prov, Owner: owner, Pr: PricingArg{Kind: "-"}, Dep: CoinsArg{Kind: "E"}}
 		if g.chance(0.5) {
 			o.Pr = g.pricing()
@@ -279,10 +327,10 @@ func (g *Gen) next() *Op {
 		}
 		return o
 	case x < 33:
-		svc, prov, owner, _ := g.bindingTarget()
+		svc, prov, owner, _ := g.bindingTarget(1)
 		return &Op{Kind: "disable", Svc: svc, Prov: prov, Owner: owner}
 	case x < 38:
-		svc, prov, owner, ok := g.bindingTarget()
+		svc, prov, owner, ok := g.bindingTarget(2)
 		o := &Op{Kind: "enable", Svc: svc, Prov: prov, Owner: owner, Dep: CoinsArg{Kind: "E"}}
 		if ok && g.chance(0.6) {
 			b := s.Binds[bindKey{a.svcName[svc], string(a.addr(prov))}]
@@ -298,7 +346,7 @@ func (g *Gen) next() *Op {
 		}
 		return o
 	case x < 42:
-		svc, prov, owner, _ := g.bindingTarget()
+		svc, prov, owner, _ := g.bindingTarget(3)
 		return &Op{Kind: "refunddep", Svc: svc, Prov: prov, Owner: owner}
 	case x < 45:
 		o := &Op{Kind: "setwd", Owner: pick(rng, ownerAtoms), Addr: pick(rng, wdAtoms)}
@@ -360,22 +408,52 @@ func (g *Gen) call(module bool) *Op {
 			o.Mod = 7002
 		}
 	}
+	if !module && g.chance(g.k3) {
+		// known finding K3: the module-service call path (off by default)
+		o.Svc = 5
+	}
 	// services that have bindings
 	bySvc := map[string][]int64{}
-	for k := range s.Binds {
+	availBySvc := map[string][]int64{}
+	for k, b := range s.Binds {
 		bySvc[k.Svc] = append(bySvc[k.Svc], a.atomOfAddr([]byte(k.Prov)))
+		if b.Available {
+			availBySvc[k.Svc] = append(availBySvc[k.Svc], a.atomOfAddr([]byte(k.Prov)))
+		}
 	}
-	var names []string
-	for n := range bySvc {
-		names = append(names, n)
+	sortNames := func(m map[string][]int64) []string {
+		var names []string
+		for n, l := range m {
+			names = append(names, n)
+			sort.Slice(l, func(i, j int) bool { return l[i] < l[j] })
+		}
+		sort.Strings(names)
+		return names
 	}
-	sort.Strings(names)
+	names := sortNames(bySvc)
+	availNames := sortNames(availBySvc)
+	promising := len(availNames) > 0 && o.Svc != 5 && g.chance(0.7)
 	var pool []int64
-	if len(names) > 0 && g.chance(0.9) {
+	switch {
+	case promising:
+		n := availNames[rng.Intn(len(availNames))]
+		o.Svc = a.atomOfSvc(n)
+		pool = availBySvc[n]
+	case len(names) > 0 && o.Svc != 5 && g.chance(0.9):
 		n := names[rng.Intn(len(names))]
 		o.Svc = a.atomOfSvc(n)
 		pool = bySvc[n]
-		sort.Slice(pool, func(i, j int) bool { return pool[i] < pool[j] })
+	case len(s.Defs) > 0 && o.Svc != 5 && g.chance(0.8):
+		var defs []string
+		for n := range s.Defs {
+			if n != modSvc {
+				defs = append(defs, n)
+			}
+		}
+		sort.Strings(defs)
+		if len(defs) > 0 {
+			o.Svc = a.atomOfSvc(defs[rng.Intn(len(defs))])
+		}
 	}
 	n := 1 + rng.Intn(3)
 	seen := map[int64]bool{}
@@ -397,14 +475,67 @@ func (g *Gen) call(module bool) *Op {
 	}
 	caps := []int64{1, 2, 10, 1000, 5000}
 	o.Dep = CoinsArg{Kind: "B", Amt: caps[rng.Intn(len(caps))]}
+	o.Timeout = int64(1 + rng.Intn(int(r.cfg.MaxTimeout)))
+	if o.Timeout > 3 && g.chance(0.7) {
+		o.Timeout = int64(1 + rng.Intn(3))
+	}
+	if promising {
+		// terms under which the chosen providers are (mostly) eligible: timeout >= their response time,
+		// cap around their price, a consumer who can (just, or just not) pay
+		maxQoS, maxPrice, total := uint64(1), int64(1), int64(0)
+		svc := a.svcName[o.Svc]
+		for _, p := range o.Provs {
+			b, ok := s.Binds[bindKey{svc, string(a.addr(p))}]
+			if !ok || !b.Available {
+				continue
+			}
+			if b.QoS > maxQoS {
+				maxQoS = b.QoS
+			}
+			if base, ok := priceOfText(b.Pricing); ok && base.IsInt64() {
+				x := base.Int64()
+				if x < 1 {
+					x = 1
+				}
+				if x > maxPrice {
+					maxPrice = x
+				}
+				total += x
+			}
+		}
+		if int64(maxQoS) <= r.cfg.MaxTimeout && g.chance(0.85) {
+			o.Timeout = int64(maxQoS)
+			if o.Timeout < r.cfg.MaxTimeout && g.chance(0.3) {
+				o.Timeout++
+			}
+		}
+		switch x := rng.Intn(10); {
+		case x < 3:
+			o.Dep.Amt = maxPrice
+		case x < 4 && maxPrice > 1:
+			o.Dep.Amt = maxPrice - 1
+		case x < 5:
+			o.Dep.Amt = maxPrice + 1
+		default:
+			o.Dep.Amt = 5000
+		}
+		if g.chance(0.75) {
+			// prefer a consumer who can pay at least one batch
+			var able []int64
+			for _, c := range consumerAtoms {
+				if r.w.balance(r.ctx, a.addr(c)).GTE(sdk.NewInt(total)) {
+					able = append(able, c)
+				}
+			}
+			if len(able) > 0 {
+				o.Cons = able[rng.Intn(len(able))]
+			}
+		}
+	}
 	if g.chance(0.03) {
 		o.Dep = CoinsArg{Kind: "E"}
 	} else if g.chance(0.03) {
 		o.Dep = CoinsArg{Kind: "X", Raw: "9atom"}
-	}
-	o.Timeout = int64(1 + rng.Intn(int(r.cfg.MaxTimeout)))
-	if o.Timeout > 3 && g.chance(0.7) {
-		o.Timeout = int64(1 + rng.Intn(3))
 	}
 	if g.chance(0.03) {
 		o.Timeout = r.cfg.MaxTimeout + 1
@@ -463,8 +594,20 @@ func (g *Gen) respond() *Op {
 	}
 	sort.Strings(all)
 	switch {
-	case len(act) > 0 && g.chance(0.85):
+	case len(act) > 0 && g.chance(0.88):
 		rid = act[rng.Intn(len(act))]
+		if g.chance(0.15) {
+			// a pending request of a context that is no longer running (paused, killed)
+			var odd []string
+			for _, x := range act {
+				if rc, ok := s.Ctxs[ridCtx(x)]; ok && (rc.State != types.RUNNING || rc.SuperMode) {
+					odd = append(odd, x)
+				}
+			}
+			if len(odd) > 0 {
+				rid = odd[rng.Intn(len(odd))]
+			}
+		}
 	case len(all) > 0 && g.chance(0.7):
 		rid = all[rng.Intn(len(all))]
 	default:
@@ -485,16 +628,16 @@ func (g *Gen) respond() *Op {
 	o.RHeight = int64(beU64(b[48:56]))
 	o.RIndex = int64(int16(uint16(b[56])<<8 | uint16(b[57])))
 	o.Who = pick(rng, providerAtoms)
-	if q, ok := s.Reqs[rid]; ok && g.chance(0.9) {
+	if q, ok := s.Reqs[rid]; ok && g.chance(0.92) {
 		o.Who = a.atomOfAddr(q.Provider)
 	}
 	switch x := rng.Intn(100); {
-	case x < 60:
-	case x < 75:
+	case x < 55:
+	case x < 76:
 		o.OutValid = false
-	case x < 85:
+	case x < 86:
 		o.Code, o.Out = 400, 0
-	case x < 92:
+	case x < 93:
 		o.Code, o.Out = 500, 0
 	case x < 95:
 		o.Code, o.Out = 200, 0 // stateless-invalid
@@ -521,28 +664,43 @@ func (g *Gen) ctxOp() *Op {
 	a := r.a
 	ids := g.snapCtxs()
 	o := &Op{Who: pick(rng, consumerAtoms)}
+	var rc types.RequestContext
+	have := false
 	if len(ids) > 0 && g.chance(0.93) {
 		id := ids[rng.Intn(len(ids))]
 		o.Tx, o.Idx = splitCtx([]byte(id))
+		rc, have = s.Ctxs[id], true
 		if g.chance(0.88) {
-			o.Who = a.atomOfAddr(s.Ctxs[id].Consumer)
-		}
-		rc := s.Ctxs[id]
-		// steer: start paused ones, pause running ones
-		switch {
-		case rc.State == types.PAUSED && g.chance(0.6):
-			o.Kind = "start"
-			return o
+			o.Who = a.atomOfAddr(rc.Consumer)
 		}
 	} else {
 		o.Tx, o.Idx = g.freshTx(), 0
 	}
-	switch x := rng.Intn(10); {
-	case x < 3:
+	// weights (pause, start, kill, update) by the state of the target
+	w := [4]int{3, 2, 1, 4}
+	if have {
+		switch {
+		case rc.State == types.PAUSED:
+			w = [4]int{1, 6, 1, 3}
+		case rc.State == types.COMPLETED:
+			w = [4]int{2, 3, 1, 4} // all of these must leave a completed context alone
+		case rc.Repeated && rc.RepeatedTotal > 0 && int64(rc.BatchCounter) >= rc.RepeatedTotal:
+			w = [4]int{6, 1, 2, 2} // last batch in flight: pause now, start after it expired
+		case rc.Repeated && rc.BatchState == types.BATCHRUNNING:
+			w = [4]int{3, 1, 3, 4} // batch in flight: kill / pause race with its answers and its expiry
+		case rc.Repeated:
+			w = [4]int{3, 1, 1, 4}
+		default:
+			w = [4]int{1, 1, 1, 3} // one-shot: pause / kill are refused
+		}
+	}
+	x := rng.Intn(w[0] + w[1] + w[2] + w[3])
+	switch {
+	case x < w[0]:
 		o.Kind = "pause"
-	case x < 5:
+	case x < w[0]+w[1]:
 		o.Kind = "start"
-	case x < 6:
+	case x < w[0]+w[1]+w[2]:
 		o.Kind = "kill"
 	default:
 		o.Kind = "updctx"
@@ -554,23 +712,51 @@ func (g *Gen) ctxOp() *Op {
 		if g.chance(0.3) {
 			n := 1 + rng.Intn(3)
 			seen := map[int64]bool{}
+			var pool []int64
+			if have {
+				for _, k := range g.snapBindings() {
+					if k.Svc == rc.ServiceName {
+						pool = append(pool, a.atomOfAddr([]byte(k.Prov)))
+					}
+				}
+			}
 			for i := 0; i < n; i++ {
 				p := pick(rng, providerAtoms)
+				if len(pool) > 0 && g.chance(0.7) {
+					p = pool[rng.Intn(len(pool))]
+				}
 				if !seen[p] {
 					seen[p] = true
 					o.Provs = append(o.Provs, p)
 				}
 			}
 		}
-		if g.chance(0.4) {
+		if g.chance(0.35) {
 			o.Timeout = int64(1 + rng.Intn(int(r.cfg.MaxTimeout)+1))
 		}
-		if g.chance(0.5) {
-			o.Freq = uint64(1 + rng.Intn(6))
-		}
-		if g.chance(0.4) {
-			totals := []int64{1, 2, 3, 5, -1}
-			o.Total = totals[rng.Intn(len(totals))]
+		if have && g.chance(0.65) {
+			// mostly acceptable: a frequency not below the resulting timeout, a total not below the counter
+			tout := rc.Timeout
+			if o.Timeout > 0 {
+				tout = o.Timeout
+			}
+			if o.Timeout > 0 || g.chance(0.4) || rc.RepeatedFrequency < uint64(tout) {
+				o.Freq = uint64(tout) + uint64(rng.Intn(3))
+			}
+			if g.chance(0.4) {
+				o.Total = int64(rc.BatchCounter) + int64(rng.Intn(3))
+				if g.chance(0.25) {
+					o.Total = -1
+				}
+			}
+		} else {
+			if g.chance(0.5) {
+				o.Freq = uint64(1 + rng.Intn(6))
+			}
+			if g.chance(0.4) {
+				totals := []int64{1, 2, 3, 5, -1}
+				o.Total = totals[rng.Intn(len(totals))]
+			}
 		}
 	}
 	return o
